@@ -5,7 +5,7 @@ import z3
 
 from mirsym import engine
 from mirsym.interp import to_z3
-from . import C03, buildrules as BR, facerule as FR
+from . import C03, buildrules as BR, facerule as FR, staterules as SR
 
 LEVEL = 'other'
 EXPLANATION = ('From the MIR: the loop bodies of ConvexCell::compute_face_integrals and compute_face_integrals_sym are executed on the same '
@@ -38,6 +38,7 @@ def check(run):
     none_vs_all_true(run, funcs)
     BR.check_normalisation(run, funcs, 'C13')
     BR.check_integrator_closures(run, funcs, 'C13')
+    SR.integrator_with_faces(run, funcs, 'C13')   # Voronoi::from(&integrator.with_faces()) sees the same integrator
     run.assume('cells_map!/filter_map/zip/flatten/collect are order preserving (std semantics; modelled positionally)')
     run.assume('sequential build: rayon variants of the same closures are not encoded (see C09)')
     return run.finish(LEVEL, EXPLANATION, trusted=['rustc -Zunpretty=mir', 'z3 5.1.0 / 4.8.12, cvc5 1.0.3', 'std Option/Vec/iterator models of mirsym'])
@@ -47,4 +48,6 @@ def replay(path):
     d = json.load(open(path))
     if d['kind'] == 'face_rule_pair':
         return C03.replay(path)
+    if d['kind'] in SR.NATIVE:
+        return SR.replay(d)
     return BR.replay(d)
